@@ -63,10 +63,11 @@ def observe(m, shipped=None):
     import chython
     from chython import MoleculeContainer
     rec = {'kind': 'mol', 'm': pproj(m), 'bytes': [], 'back': {'atoms': []}, 'plen': -1, 'dispatch': 0, 'shipped': list(shipped) if shipped else [], 'exc': '',
-           'cs': '', 'cref': ''}
+           'cs': '', 'cref': '', 'dunder': []}
     try:
         raw = m.pack(compressed=False)
         rec['bytes'] = list(raw)
+        rec['dunder'] = list(zlib.decompress(bytes(m)))
         b = MoleculeContainer.unpack(raw, compressed=False)
         rec['back'] = pproj(b, back=True)
         rec['plen'] = MoleculeContainer.pack_len(m.pack())
@@ -77,11 +78,16 @@ def observe(m, shipped=None):
     return rec
 
 
-def decorate(m, rnd):
+def decorate(m, rnd, warm=False):
     """random atom numbers up to 4095 and coordinates over (and beyond) the half-float range"""
     nums = rnd.sample(range(1, 4096), len(m))
     m.remap({n: 5000 + k for k, n in enumerate(list(m._atoms))})
     m.remap({5000 + k: nums[k] for k in range(len(nums))})
+    if warm:      # the binary form is asked for before the coordinates change: the next one must follow them
+        try:
+            bytes(m), m.pack(), str(m)
+        except Exception:
+            pass
     for a in m._atoms.values():
         kind = rnd.random()
         if kind < .6:
@@ -109,7 +115,7 @@ def mol_case(case):
     except Exception:
         return {'skip': 1}
     if case.get('decorate'):
-        decorate(m, rnd)
+        decorate(m, rnd, warm=case['rs'] % 2)
     return observe(m)
 
 
@@ -122,7 +128,11 @@ def grid_case(case):
     m = MoleculeContainer()
     if case['what'] == 'atom':
         e = Element.from_atomic_number(case['z'])
-        m.add_atom(e(case['iso'] or None, charge=case['c'], is_radical=bool(case['r'])), case['n'])
+        try:
+            m.add_atom(e(case['iso'] or None, charge=case['c'], is_radical=bool(case['r'])), case['n'])
+        except Exception as ex:      # every grid point is a tabulated (element, isotope, charge) combination: refusing it is an observation
+            return {'kind': 'mol', 'm': {'atoms': []}, 'bytes': [], 'back': {'atoms': []}, 'plen': -1, 'dispatch': 0, 'shipped': [],
+                    'exc': 'construct-' + type(ex).__name__, 'cs': '', 'cref': '', 'dunder': []}
         if case.get('h') is not None:
             m._atoms[case['n']]._implicit_hydrogens = None if case['h'] < 0 else case['h']
     elif case['what'] == 'star':       # one centre with k neighbours
